@@ -13,7 +13,7 @@ RULE = ('stimulus = (kind, validator tables over a value domain of 3..6 values, 
         'the sequence contains at least one accepted and one rejected put')
 KMAX = 6
 # concrete Python values for the abstract ids 1..6 (pairwise unequal, hashable)
-VALS = [None, 10, 'b', 2.5, ('t', 1), 0, frozenset({3})]
+VALS = ['<unused>', None, 10, 'b', 2.5, ('t', 1), 0]        # id 1 is None: the default 'expired' value
 TRUTHY = [True, 1, 'yes', [0]]
 FALSY = [False, 0, '', None, []]
 
@@ -42,8 +42,11 @@ def _random_cfg(rnd, k):
         else list(range(1, k + 1))
     initdef = rnd.randint(0, k)
     rest = rnd.randint(0, k) if kind == 'input' and rnd.random() < 0.5 else 0
-    expired = rnd.randint(1, k) if kind == 'exp' else 1
-    return _cfg(kind, k, hasA, allowed, hasC, check, hasS, schema, initdef, rest, expired)
+    expired = rnd.choice([1, 1] + list(range(1, k + 1))) if kind == 'exp' else 1
+    cfg = _cfg(kind, k, hasA, allowed, hasC, check, hasS, schema, initdef, rest, expired)
+    # the expired value None may also be left to the default of the argument
+    cfg['expdef'] = bool(kind == 'exp' and expired == 1 and rnd.random() < 0.7)
+    return cfg
 
 
 def stimuli(tier, seed, ctx):
@@ -94,6 +97,7 @@ def execute(stim):
         kw['schema'] = schema
     if cfg['initdef']:
         kw['initdef'] = VALS[cfg['initdef']]
+    expkw = {} if cfg.get('expdef') else {'expired': VALS[cfg['expired']]}
     storage = None
     if cfg['kind'] == 'input' and cfg['rest']:
         storage = {"<Input 'inp'>": VALS[cfg['rest']]}
@@ -104,9 +108,9 @@ def execute(stim):
         if cfg['kind'] == 'input':
             edzed.Input('inp', **kw)
         else:
-            edzed.InputExp('inp', duration='1h', expired=VALS[cfg['expired']], **kw)
+            edzed.InputExp('inp', duration='1h', **expkw, **kw)
         refused = False
-    except ValueError:
+    except Exception:       # the creation is refused, whatever exception type reports it
         refused = True
     edzed.reset_circuit()
     if refused:
@@ -116,7 +120,7 @@ def execute(stim):
         if cfg['kind'] == 'input':
             blk = edzed.Input('inp', **kw)
         else:
-            blk = edzed.InputExp('inp', duration='1h', expired=VALS[cfg['expired']], **kw)
+            blk = edzed.InputExp('inp', duration='1h', **expkw, **kw)
         edzed.Not('keepalive').connect(blk)
         return blk
 
@@ -131,7 +135,7 @@ def execute(stim):
             data = {'duration': 0} if x else {}
             try:
                 ret = edzed.ExtEvent(blk).send(VALS[v], **data)
-            except edzed.EdzedError:
+            except Exception:   # a validator's exception must never reach the sender of the event
                 ret = 'exc'
             await rt.settle(1)
             log.append({'ev': 'put' if isinstance(ret, bool) else 'put_badret', 'v': v, 'x': bool(x),
